@@ -12,7 +12,7 @@ git -C /repo worktree add -f --detach $S/repo HEAD >/dev/null 2>&1 || { echo "ex
 if [ "$patch" != "-" ]; then git -C $S/repo apply "$patch" 2>/dev/null || { echo "exit=98 :: PATCH-DOES-NOT-APPLY"; exit 98; }; fi
 cp -r /verif/harness $S/harness; mkdir -p $S/out
 sed -i "s#=> /repo#=> $S/repo#" $S/harness/go.mod
-log=$(VERIF_SCRATCH=$S timeout ${TIMEOUT:-1800} /verif/bin/pvcheck $prop $tier 2>&1); code=$?
+log=$(VERIF_SCRATCH=$S timeout ${TIMEOUT:-1800} ${PVCHECK:-/verif/bin/pvcheck} $prop $tier 2>&1); code=$?
 first=$(echo "$log" | grep -m1 -A1 "^VIOLATION" | tail -1 | sed 's/^ *//' | cut -c1-220)
 [ -z "$first" ] && first=$(echo "$log" | grep -m1 -E "CHECK-ERROR|KNOWN-FINDING" | cut -c1-200)
 [ -n "$VERBOSE" ] && echo "$log" | tail -${VERBOSE}
